@@ -470,9 +470,12 @@ fn make_case(progs: &[Vec<R>], strat: Strat, mailbox: Mailbox, start_err_at: Opt
         role.started.push(StartBeh::Err);
     }
     role.started_actions = started_timers.to_vec();
-    let timers = !started_timers.is_empty() || progs.iter().flatten().any(|r| matches!(r, R::CmdTimer(_)));
+    // timers the old incarnation registers in its stopped() hook belong to it as well
+    role.stopped_actions = STOPPED_TIMERS.with(|t| t.borrow().clone());
+    let timers = !started_timers.is_empty() || !role.stopped_actions.is_empty() || progs.iter().flatten().any(|r| matches!(r, R::CmdTimer(_)));
     let desc = format!(
-        "restart strategy={:?} mailbox={} start_err_at={:?} started_timers={:?} progs={}",
+        "restart{} strategy={:?} mailbox={} start_err_at={:?} started_timers={:?} progs={}",
+        if role.stopped_actions.is_empty() { String::new() } else { format!(" [registered in stopped(): {:?}]", role.stopped_actions) },
         strat,
         mailbox.name(),
         start_err_at,
@@ -491,6 +494,17 @@ fn make_case(progs: &[Vec<R>], strat: Strat, mailbox: Mailbox, start_err_at: Opt
             oracle,
         }),
     }
+}
+
+thread_local! {
+    static STOPPED_TIMERS: std::cell::RefCell<Vec<Action>> = const { std::cell::RefCell::new(Vec::new()) };
+}
+
+fn with_stopped_timers<T>(ts: Vec<Action>, f: impl FnOnce() -> T) -> T {
+    STOPPED_TIMERS.with(|t| *t.borrow_mut() = ts);
+    let r = f();
+    STOPPED_TIMERS.with(|t| t.borrow_mut().clear());
+    r
 }
 
 fn seqs(alpha: &[R], n: usize) -> Vec<Vec<R>> {
@@ -565,6 +579,21 @@ fn cases(tier: Tier) -> Vec<Case> {
             ] {
                 for s1 in [0u32, 1, 3] {
                     v.push(make_case(&[vec![R::CmdTimer(a), R::Sleep(s1), R::Restart, R::Call]], strat, mb, None, &[], 10, None));
+                }
+            }
+        }
+    }
+    // timers registered in the stopped() hook of the incarnation that is going away
+    for ts in [vec![Action::DelayedSend { timer: 7, delay: 2 }], vec![Action::Interval { timer: 7, period: 2 }], vec![Action::DelayedExec { timer: 7, delay: 1 }, Action::IntervalWith { timer: 8, period: 3 }]] {
+        for &strat in &[Strat::Default, Strat::Recreate] {
+            for &mb in &[Mailbox::U, Mailbox::B(1)] {
+                for via in [R::Restart, R::CmdRestart] {
+                    v.extend(with_stopped_timers(ts.clone(), || {
+                        vec![
+                            make_case(&[vec![via, R::Sleep(4), R::Call]], strat, mb, None, &[], 10, None),
+                            make_case(&[vec![R::Sleep(1), via, R::Sleep(1), R::Restart, R::Sleep(4), R::Call]], strat, mb, None, &[Action::Interval { timer: 1, period: 2 }], 12, None),
+                        ]
+                    }));
                 }
             }
         }
